@@ -79,9 +79,16 @@ def obligations(tier):
     for n in range(0, maxlen + 1):
         for combo in it.product(('call_i', 'call_s', 'notif'), repeat=n):
             obs.append({'h': 'batch_request', 'els': list(combo), '_weight': 3 ** n})
+            if n:
+                # the same batch GROWN after it was already serialised once (append / extend): same wire form required
+                obs.append({'h': 'batch_request', 'els': list(combo), 'build': 'append', '_weight': 3 ** n})
+                obs.append({'h': 'batch_request', 'els': list(combo), 'build': 'extend', '_weight': 3 ** n})
         for combo in it.product(('ok', 'err', 'nullid'), repeat=n):
             for base in ('JsonRpcError', 'VerifBase'):
                 obs.append({'h': 'batch_response', 'els': list(combo), 'base': base, '_weight': 3 ** n})
+                if n and base == 'JsonRpcError':
+                    obs.append({'h': 'batch_response', 'els': list(combo), 'base': base, 'build': 'append', '_weight': 3 ** n})
+                    obs.append({'h': 'batch_response', 'els': list(combo), 'base': base, 'build': 'extend', '_weight': 3 ** n})
     for dk in ('absent', 'null', 'int'):
         for base in ('JsonRpcError', 'VerifBase'):
             obs.append({'h': 'batch_error', 'data': dk, 'base': base})
@@ -351,6 +358,21 @@ def h_response_err(ob):
     return run
 
 
+def _grown(cls, items, build, env):
+    """The batch holding `items`, either constructed in one go or grown by append / extend AFTER an earlier serialisation
+    (of the then shorter batch) - a serialised form must describe the batch as it is now."""
+    if not build:
+        return cls(*items)
+    b = cls(*items[:-1])
+    _wire(env, b)
+    b.to_json()
+    if build == 'append':
+        b.append(items[-1])
+    else:
+        b.extend(items[-1:])
+    return b
+
+
 def h_batch_request(ob):
     def run(env):
         import pjrpc
@@ -360,7 +382,7 @@ def h_batch_request(ob):
             ids.append(id)
             reqs.append(pjrpc.Request(env.str(f'm{i}', 2), [env.int(f'p{i}')], id))
         try:
-            b = pjrpc.BatchRequest(*reqs)
+            b = _grown(pjrpc.BatchRequest, reqs, ob.get('build'), env)
         except pjrpc.exc.IdentityError:
             return 'duplicate-ids'
         w = _wire(env, b)
@@ -404,7 +426,7 @@ def h_batch_response(ob):
                 resps.append(pjrpc.Response(id=env.int(f'id{i}'), error=pjrpc.exc.JsonRpcError(code, msg)))
                 exp.append((code, msg))
         try:
-            b = pjrpc.BatchResponse(*resps)
+            b = _grown(pjrpc.BatchResponse, resps, ob.get('build'), env)
         except pjrpc.exc.IdentityError:
             return 'duplicate-ids'
         w = _wire(env, b)
